@@ -61,6 +61,7 @@ PROPS = {
             {'engine': 'verus', 'name': 'end_next', 'tier': 'quick', 'role': 'split (one copy per downstream block) and broadcast (All: singleton groups)'},
             {'engine': 'verus', 'name': 'zip', 'tier': 'quick', 'role': 'Zip::next: positional one-to-one pairing, min(|a|,|b|) pairs'},
             {'engine': 'verus', 'name': 'route_next', 'tier': 'quick', 'role': 'RoutingEnd::next: first matching route wins, no other route, unmatched dropped, control to every sender'},
+            {'engine': 'verus', 'name': 'binary_select', 'tier': 'quick', 'role': 'merge (and the input side of zip / joins): the two-input receiver delivers every batch it reads from either link element by element, in order, wrapped in the variant of its side (read_step / out_rel); one side is read per call'},
         ],
         'explanation': 'End::next sends one copy of every element to each downstream block group (split) and, with singleton groups (All), to every replica (broadcast).',
         'assumptions': [],
